@@ -1229,7 +1229,13 @@ func ruleC16Generator(w *World, r *Report) {
 						}
 						if sel, ok := call.Fun.(*ast.SelectorExpr); ok {
 							if id, ok := sel.X.(*ast.Ident); ok && (id.Name == "sort" || id.Name == "slices") && len(call.Args) >= 1 && exprText(w.Fset, call.Args[0]) == slice {
-								sorted = true
+								// a total order on the keys themselves: a sort with a caller-supplied
+								// comparison (sort.Slice, slices.SortFunc) can leave keys that compare equal
+								// in the order the map iteration produced them
+								switch sel.Sel.Name {
+								case "Strings", "Ints", "Float64s", "Sort", "Stable":
+									sorted = true
+								}
 							}
 						}
 						return true
